@@ -15,6 +15,12 @@ CHECKS = {
          "Translation validation: for every operation the symbolic command frame (all argument values at once) is compared byte-for-byte with spec/wire_frames.json, every hole is traced to the same-named argument through its encoder's normal form and guard (timer 60*minutes LE32, auto-off [3600,86340], name UTF-8 padded to 32, position two hex digits, day mask, start/end), rejections are shown to raise before the command frame is written. Float arithmetic inside timedelta handling and the op-code values themselves (no independent oracle) are not decided.", "§4 C02"),
  "C03": ("proof", "path enumeration of every operation's I/O event trace by abstract interpretation; provenance of session/timestamp holes; write-effect sweep for shared state",
          "Proof over all control-flow paths of the 12 operations (helpers inlined): login frame first and exactly once, request/response alternation, session = bytes 8..12 of this invocation's login reply, timestamp = this invocation's single clock occurrence, login flavour per protocol type, fixed frame sequences (2 frames; 2..4 for thermostat control). Absence of any state shared between operations or instances is shown by an exhaustive write-effect sweep (attribute stores, globals, caches, mutable defaults). Two coroutines on one instance and device-side pairing are not decided.", "§4 C03"),
+ "C12": ("proof", "enum-table folding plus normal forms of encoder/decoder by abstract interpretation (decoder: all 128 guarded paths)",
+         "Proof, exhaustive over the finite tables: the Days table is folded from the source (bits are distinct powers of two, Monday 0x02..Sunday 0x80); the encoder's normal form for each accepted input form is '{:02x}' of the bit sum with empty/duplicate inputs raising ValueError; the decoder's 128 guarded paths return exactly the days whose bit is set and masks outside [2,254] raise. A one-line lemma on powers of two closes the bijection.", "§4 C12"),
+ "C14": ("proof", "normal form of calc_duration by abstract interpretation, compared with the two accepted spec forms",
+         "Proof by normal form over all pairs: both times are parsed by the same constant '%H:%M', the result is str(E-S) exactly when E>=S and str((E+1 day)-S) exactly when E<S (strict), or the modular form; the values are touched by one comparison and one subtraction only, so the three-way case split is the complete argument.", "§4 C14"),
+ "C19": ("proof", "constant/enum/dataclass table folding; abstract interpretation of the 36 (type, class) constructor pairs and of the API constructors",
+         "Proof, exhaustive over finite tables folded from the source: unique 2-byte model codes, protocol type and category per device type; each device class accepts exactly the types of its category (all 36 pairs decided by interpreting __post_init__ with the concrete member); both port tables cover every category, agree with the category's protocol type and with the ports of the property statement; API classes default to their protocol's TCP port.", "§4 C19"),
 }
 CHECKS.update(_MORE) if False else None
 NOT_YET = {}
